@@ -561,11 +561,9 @@ def run_sequence(ctx, ops):
     # registrations never happen here, so one database per process is reused; caches are cleared so
     # that every sequence starts cold and is a pure function of its operations
     db = _DB.get("db")
-    if db is None or snapshot.registry_light(db) != _DB["fp"]:
+    if db is None or snapshot.registry_light(db) != _DB["fp"] or not env.clear_caches(db):
         db = _DB["db"] = env.new_db("posc")
         _DB["fp"] = snapshot.registry_light(db)
-    db.quantities_cache.clear()
-    db._category_unit_valid.clear()
     with env.pushed(db):
         Machine(ctx, db, {"ops": ops}).run(ops)
 
